@@ -1,7 +1,278 @@
-// correspondence + search binary for property C18 (stub)
+// C18 — every (small files) / every row-boundary + sampled (large files) prefix of files written by
+// the real Table::save of Profile, Metric, Lookup and Decomp is put in place of the file and given
+// to the real Table::load under catch_unwind, vs the Lean model (`RP.Pgcopy.load*` on `take k`).
+// Search oracle (from the property statement): a strict prefix either makes load fail (panic) or
+// yields exactly the complete content; it never yields a table with rows missing.  The complete
+// file must load to the complete content.
+#[path = "../c17_shared.rs"]
+mod shared;
+use robopoker::cards::isomorphism::Isomorphism;
+use robopoker::cards::street::Street;
+use robopoker::clustering::abstraction::Abstraction;
+use robopoker::clustering::histogram::Histogram;
+use robopoker::clustering::lookup::Lookup;
+use robopoker::clustering::transitions::Decomp;
+use robopoker::mccfr::bucket::Bucket;
+use robopoker::mccfr::edge::Edge;
+use robopoker::save::upload::Table;
+use rpharness::*;
+use shared::*;
+use std::collections::BTreeMap;
+
+struct Ctx {
+    run: Run,
+    scr: Scratch,
+    rng: Rng,
+    deep: bool,
+}
+
+/// prefix lengths to try for a file of `len` bytes with rows of `row` bytes after a 19-byte header
+fn cuts(c: &mut Ctx, len: usize, row: usize) -> Vec<usize> {
+    let mut ks: Vec<usize> = vec![];
+    if len <= 420 {
+        ks.extend(0..=len);
+        return ks;
+    }
+    ks.extend(0..=40.min(len));
+    let nrows = (len - 21) / row;
+    for j in 0..=nrows {
+        ks.push(19 + j * row); // row boundaries: the cuts the pinned loaders did not notice
+    }
+    let extra = if c.deep { 2000 } else { 250 };
+    for _ in 0..extra {
+        let j = c.rng.below(nrows as u64 + 1) as usize;
+        let off = match c.rng.below(4) {
+            0 => 1,
+            1 => 2,
+            2 => row - 1,
+            _ => c.rng.below(row as u64) as usize,
+        };
+        ks.push((19 + j * row + off).min(len));
+    }
+    ks.extend(len.saturating_sub(80)..=len);
+    ks.sort();
+    ks.dedup();
+    ks
+}
+
+/// run all cuts of one saved file; `load` returns Some(Some(n)) = loaded, content differs, n rows;
+/// Some(None) = loaded and equal to the complete content; None = panic
+fn run_cuts(
+    c: &mut Ctx, table: &str, aux: u64, rows: &[Vec<u64>], name: &str, full: &[u8], rowsize: usize,
+    load: &mut dyn FnMut() -> Option<Option<usize>>, river: bool,
+) {
+    let ks = cuts(c, full.len(), rowsize);
+    let op = format!("cuts {table} {aux} {} {} {} {}", rows.len(), flat(rows), ks.len(), ks.iter().map(|k| k.to_string()).collect::<Vec<_>>().join(" "));
+    let mut ans: Vec<String> = Vec::with_capacity(ks.len());
+    let boundary = |k: usize| k >= 19 && k < full.len() - 1 && (k - 19) % rowsize == 0;
+    for &k in &ks {
+        c.scr.write(name, &full[..k]);
+        c.run.evaluations += 1;
+        c.run.spec_checked += 1;
+        let r = load();
+        let tok = match r {
+            None => "fail".to_string(),
+            Some(None) => "ok".to_string(),
+            Some(Some(n)) => format!("short:{n}"),
+        };
+        let cls = if k == full.len() { "cut=none(complete file)" } else if k < 19 { "cut=in-header" } else if boundary(k) { "cut=row-boundary" } else if k >= full.len() - 2 { "cut=in-trailer" } else { "cut=inside-row" };
+        c.run.count(&format!("{table} {cls} -> {}", if tok.starts_with("short") { "short" } else { &tok }));
+        let short_op = format!("{table} file of {} bytes ({} rows) cut to {k} bytes", full.len(), rows.len());
+        if k < full.len() {
+            if let Some(Some(n)) = r {
+                c.run.fail("truncated-file-loads-short", &short_op, "load fails, or returns the complete content", &format!("load succeeded with {n} rows"));
+            }
+        } else if !river {
+            if tok != "ok" {
+                c.run.fail("complete-file-does-not-load", &short_op, "the complete content", &tok);
+            }
+        }
+        if !rows.is_empty() {
+            c.run.distinct(&(table, rows, k));
+        }
+        ans.push(tok);
+    }
+    c.run.line(&op, &ans.join(" "));
+}
+
+fn profile_case(c: &mut Ctx, rows: &[(Bucket, Edge, u32, u32)]) {
+    let p = build_profile(rows);
+    let orig = profile_rows(&p);
+    let typed = profile_typed(&p);
+    c.scr.clean();
+    p.save();
+    let files = c.scr.files();
+    assert!(files.len() == 1 && files[0].0 == "blueprint", "blueprint file");
+    let full = files[0].1.clone();
+    let mut load = || catch(|| profile_load()).map(|l| { let t = profile_typed(&l); if t == typed { None } else { Some(t.len()) } });
+    run_cuts(c, "blueprint", 0, &orig, "blueprint", &full, 66, &mut load, false);
+}
+fn metric_case(c: &mut Ctx, rows: &[(u64, u32)]) {
+    let m = build_metric(rows);
+    let orig = metric_rows(&m);
+    let typed = metric_typed(&m);
+    c.scr.clean();
+    m.save();
+    let files = c.scr.files();
+    assert!(files.len() == 1, "metric file");
+    let name = files[0].0.clone();
+    let street = name.strip_prefix("metric.").and_then(street_of_suffix).expect("metric street");
+    let full = files[0].1.clone();
+    let mut load = || catch(move || metric_load(street)).map(|l| { let t = metric_typed(&l); if t == typed { None } else { Some(t.len()) } });
+    run_cuts(c, "metric", 0, &orig, &name, &full, 22, &mut load, false);
+}
+fn lookup_case(c: &mut Ctx, map: &BTreeMap<Isomorphism, Abstraction>) {
+    let orig = lookup_rows(map);
+    c.scr.clean();
+    Lookup::from(map.clone()).save();
+    let files = c.scr.files();
+    assert!(files.len() == 1, "lookup file");
+    let name = files[0].0.clone();
+    let street = name.strip_prefix("isomorphism.").and_then(street_of_suffix).expect("lookup street");
+    let full = files[0].1.clone();
+    let mut load = || catch(move || BTreeMap::from(lookup_load(street))).map(|l| if &l == map { None } else { Some(l.len()) });
+    run_cuts(c, "lookup", 0, &orig, &name, &full, 26, &mut load, false);
+}
+/// Decomp has no read accessor: what a load delivered is observed by saving it again
+fn decomp_case(c: &mut Ctx, map: BTreeMap<Abstraction, Histogram>) {
+    let orig = decomp_rows(&map);
+    c.scr.clean();
+    Decomp::from(map).save();
+    let files = c.scr.files();
+    assert!(files.len() == 1, "transitions file");
+    let name = files[0].0.clone();
+    let street = name.strip_prefix("transitions.").and_then(street_of_suffix).expect("transitions street");
+    let river = street == Street::Rive;
+    let mass = if river { 0 } else { street.n_children() as u64 };
+    let full = files[0].1.clone();
+    // the complete content as a complete load delivers it
+    let path = format!("pgcopy/{name}");
+    c.scr.write(&name, &full);
+    let complete: Option<Vec<u8>> = catch(|| decomp_load(street)).map(|d| {
+        d.save();
+        std::fs::read(&path).expect("resaved")
+    });
+    if complete.is_none() && !river {
+        c.run.fail("complete-file-does-not-load", &format!("transitions {} rows", orig.len()), "the complete content", "panic");
+    }
+    let mut load = || {
+        catch(|| decomp_load(street)).map(|d| {
+            d.save();
+            let again = std::fs::read(&path).expect("resaved");
+            if Some(&again) == complete.as_ref() { None } else { Some((again.len().saturating_sub(21)) / 34) }
+        })
+    };
+    run_cuts(c, "transitions", mass, &orig, &name, &full, 34, &mut load, river);
+}
+
+fn any_profile_rows(rng: &mut Rng, n: usize) -> Vec<(Bucket, Edge, u32, u32)> {
+    let mut rows = vec![];
+    while rows.len() < n {
+        let b = any_bucket(rng);
+        for _ in 0..(1 + rng.below(4)).min((n - rows.len()) as u64) {
+            rows.push((b, any_edge(rng), any_f32(rng), any_f32(rng)));
+        }
+    }
+    rows
+}
+fn any_decomp(rng: &mut Rng, street: Street, n: usize) -> BTreeMap<Abstraction, Histogram> {
+    let next = match street {
+        Street::Pref => Street::Flop,
+        Street::Flop => Street::Turn,
+        _ => Street::Rive,
+    };
+    let mut m = BTreeMap::new();
+    let mut total = 0;
+    while total < n {
+        let from = Abstraction::from((street, rng.below(4096) as usize));
+        let k = 1 + rng.below(6) as usize;
+        let support: Vec<Abstraction> = (0..k).map(|_| Abstraction::from((next, rng.below(128) as usize))).collect();
+        let draws = 1 + rng.below(40);
+        let v: Vec<Abstraction> = (0..draws).map(|_| support[rng.below(k as u64) as usize]).collect();
+        let h = Histogram::from(v);
+        total += h.n();
+        m.insert(from, h);
+    }
+    m
+}
+
 fn main() {
-    let a = rpharness::args();
-    let mut run = rpharness::Run::new(&a.out);
-    run.rule = "stub".into();
-    run.finish();
+    let a = args();
+    let out = std::fs::canonicalize(&a.out).unwrap_or_else(|_| {
+        std::fs::create_dir_all(&a.out).expect("out dir");
+        std::fs::canonicalize(&a.out).expect("out dir")
+    });
+    let out = out.to_string_lossy().into_owned();
+    let rng = Rng::new(a.seed);
+    let run = Run::new(&out);
+    quiet_panics();
+    let scr = Scratch::new(&out);
+    let deep = a.thorough();
+    let mut c = Ctx { run, scr, rng, deep };
+    let nsmall = if deep { 60 } else { 12 };
+    let big = if deep { 3000 } else { 500 };
+    c.run.rule = format!(
+        "files written by the real save() of all four table kinds (0,1,2,3 rows, {nsmall} random tables of up to 5 rows, one of ~60 and one of ~{big} rows per kind; transitions for preflop/flop/turn and the empty river file): for files up to 420 bytes EVERY prefix length 0..len, otherwise bytes 0..40, every row boundary, sampled offsets inside rows (first/second/last byte and random), the last 80 bytes, and the complete file; each prefix replaces the file and is loaded by the real load() under catch_unwind; a case = one (file, cut), non-trivial when the table has at least one row; distinct by (table content, cut)");
+    c.run.exhaustive = false;
+
+    for n in [0usize, 1, 2, 3] {
+        let rows = any_profile_rows(&mut c.rng, n);
+        profile_case(&mut c, &rows);
+        let rows: Vec<(u64, u32)> = (0..n).map(|_| (c.rng.next(), any_f32(&mut c.rng))).collect();
+        metric_case(&mut c, &rows);
+        if n > 0 {
+            for s in STREETS {
+                let mut m = BTreeMap::new();
+                while m.len() < n {
+                    m.insert(any_isomorphism(&mut c.rng, s), any_abstraction(&mut c.rng, Some(s)));
+                }
+                lookup_case(&mut c, &m);
+            }
+        }
+    }
+    decomp_case(&mut c, BTreeMap::new());
+    for s in [Street::Pref, Street::Flop, Street::Turn] {
+        for n in [1usize, 2, 5] {
+            let m = any_decomp(&mut c.rng, s, n);
+            decomp_case(&mut c, m);
+        }
+    }
+    // a value field that looks like a trailer or a row tag must not confuse the loader
+    metric_case(&mut c, &[(0xFFFF_FFFF_FFFF_FFFF, 0xFFFF_FFFF), (0x0002_0002_0002_0002, 0x0002_0002), (0xFFFF_0000_0000_0008, 0x0000_0004)]);
+    for _ in 0..nsmall {
+        let n = c.rng.below(6) as usize;
+        let rows = any_profile_rows(&mut c.rng, n);
+        profile_case(&mut c, &rows);
+        let n = c.rng.below(6) as usize;
+        let rows: Vec<(u64, u32)> = (0..n).map(|_| (if c.rng.chance(1, 4) { c.rng.below(4) } else { c.rng.next() }, any_f32(&mut c.rng))).collect();
+        metric_case(&mut c, &rows);
+        let s = STREETS[c.rng.below(4) as usize];
+        let n = 1 + c.rng.below(5) as usize;
+        let mut m = BTreeMap::new();
+        for _ in 0..n {
+            m.insert(any_isomorphism(&mut c.rng, s), any_abstraction(&mut c.rng, None));
+        }
+        lookup_case(&mut c, &m);
+        let s = [Street::Pref, Street::Flop, Street::Turn][c.rng.below(3) as usize];
+        let n = 1 + c.rng.below(5) as usize;
+        let m = any_decomp(&mut c.rng, s, n);
+        decomp_case(&mut c, m);
+    }
+    for n in [60usize, big] {
+        let rows = any_profile_rows(&mut c.rng, n);
+        profile_case(&mut c, &rows);
+        let rows: Vec<(u64, u32)> = (0..n).map(|_| (c.rng.next(), any_f32(&mut c.rng))).collect();
+        metric_case(&mut c, &rows);
+        let s = STREETS[1 + c.rng.below(3) as usize];
+        let mut m = BTreeMap::new();
+        while m.len() < n {
+            m.insert(any_isomorphism(&mut c.rng, s), any_abstraction(&mut c.rng, Some(s)));
+        }
+        lookup_case(&mut c, &m);
+        let s = [Street::Pref, Street::Flop, Street::Turn][c.rng.below(3) as usize];
+        let m = any_decomp(&mut c.rng, s, n);
+        decomp_case(&mut c, m);
+    }
+    c.scr.clean();
+    c.run.finish();
 }
